@@ -135,7 +135,7 @@ class Ctx:
         if tag == 'Str':
             return VStr(self._const(hint, z3.StringSort()), ty.args[0])
         if tag == 'Any':
-            return VAny(self._const(hint, Val))
+            return VAny(self._const(hint, Val), notnone=bool(ty.args), kindtag=ty.args[0] if ty.args else None)
         if tag == 'None':
             return VNone()
         if tag == 'Cls':
@@ -149,6 +149,11 @@ class Ctx:
             return self.new_io(ty.args[0], hint)
         if tag == 'Tuple':
             return VTuple([self.fresh(t, '%s.%d' % (hint, i)) for i, t in enumerate(ty.args)])
+        if tag == 'Union':
+            alts = [(lab, self.fresh(t, '%s.%s' % (hint, lab))) for lab, t in ty.args[0]]
+            tg = self._const(hint + '.tag', z3.IntSort())
+            self.assume(z3.And(tg >= 0, tg < len(alts)))
+            return VUnion(tg, alts)
         if tag == 'Pat':
             return VPat(self._const(hint + '.iseof', z3.BoolSort()), self._const(hint + '.isto', z3.BoolSort()),
                         self.fresh(ty.args[0], hint + '.val'))
@@ -183,6 +188,21 @@ class Ctx:
     def new_symlist(self, name, comps, scalar=False):
         arrs = []
         pat = None
+        if scalar and comps[0][1].tag == 'Union':
+            alts = comps[0][1].args[0]
+            tagarr = z3.Array(self.fresh_name('%s.tag' % name), z3.IntSort(), z3.IntSort())
+            arrs = [(tagarr, T.Int)]
+            for lab, t in alts:
+                if t.tag in ('Cls', 'None'):
+                    arrs.append((None, t))
+                else:
+                    arrs.append((z3.Array(self.fresh_name('%s.%s' % (name, lab)), z3.IntSort(), sort_of(t)), t))
+            n = VInt(self._const(name + '.len', z3.IntSort()))
+            self.assume(n.t >= 0)
+            o = self.alloc(HObj('list', 'symlist', {'len': n, 'comps': arrs, 'scalar': True, 'pat': False,
+                                                    'union': [lab for lab, _ in alts]}, closed=True))
+            self.assume(S.QForall(z3.IntVal(0), n.t, lambda k: z3.And(z3.Select(tagarr, k) >= 0, z3.Select(tagarr, k) < len(alts))))
+            return o
         if scalar and comps[0][1].tag == 'Pat':
             pat = comps[0][1]
             inner = pat.args[0]
@@ -653,6 +673,8 @@ def to_spec(ctx, heap, v):
         return tuple(to_spec(ctx, heap, x) for x in v.items)
     if isinstance(v, VOpt):
         return Opt(v.isnone, to_spec(ctx, heap, v.inner))
+    if isinstance(v, VUnion):
+        return S.Union(v.tag, [(lab, to_spec(ctx, heap, x)) for lab, x in v.alts])
     if isinstance(v, VPat):
         return S.Pat(v.iseof, v.isto, to_spec(ctx, heap, v.payload))
     if isinstance(v, VObj):
@@ -782,7 +804,11 @@ def _joinlist_axioms(t):
     return out
 
 
-AXIOMS = {'JoinList': _joinlist_axioms, 'RowSeg': _rowseg_axioms, 'IsDigits': _isdigits_axioms, 'Find': _find_axioms, 'RFind': _find_axioms, 'ReFind': _refind_axioms, 'ReMatch': _rematch_axioms}
+def _recompile_axioms(t):
+    return [S.RePatText(t) == t.arg(0), S.RePatIsBytes(t) == t.arg(1), S.ReFlags(t) == t.arg(2)]
+
+
+AXIOMS = {'ReCompile': _recompile_axioms, 'JoinList': _joinlist_axioms, 'RowSeg': _rowseg_axioms, 'IsDigits': _isdigits_axioms, 'Find': _find_axioms, 'RFind': _find_axioms, 'ReFind': _refind_axioms, 'ReMatch': _rematch_axioms}
 
 
 def collect_apps(f, names, out, seen):
@@ -851,6 +877,16 @@ def collect_index_terms(f, add, depth=0):
 def symlist_elem(h, i):
     """Element i of a symbolic list of tuples/scalars."""
     comps = h.fields['comps']       # list of (z3 Array, type)
+    if h.fields.get('union'):
+        tg = z3.Select(comps[0][0], i)
+        alts = []
+        for lab, (arr, ty) in zip(h.fields['union'], comps[1:]):
+            if arr is None:
+                alts.append((lab, VClass(ty.args[0]) if ty.tag == 'Cls' else VNone()))
+            else:
+                val = _wrap(z3.Select(arr, i), ty)
+                alts.append((lab, val))
+        return VUnion(tg, alts)
     vals = []
     for arr, ty in comps:
         t = z3.Select(arr, i)
@@ -870,7 +906,7 @@ def _wrap(t, ty):
     if ty.tag == 'Bool':
         return VBool(t)
     if ty.tag == 'Any':
-        return VAny(t)
+        return VAny(t, notnone=bool(ty.args), kindtag=ty.args[0] if ty.args else None)
     if ty.tag == 'Real':
         return VReal(t)
     raise Unsupported('symlist component type %r' % ty)
